@@ -5,6 +5,7 @@ import (
 
 	"github.com/elastic/go-structform/gotype"
 
+	"verif/harness/ev"
 	"verif/harness/gen"
 	"verif/harness/rt"
 )
@@ -72,3 +73,26 @@ func FOLDUNFOLD_Generic(h *rt.H)        { foldUnfoldGeneric(h, nil) }
 func FOLDUNFOLD_Generic_cborl(h *rt.H)  { foldUnfoldGeneric(h, cborCodec) }
 func FOLDUNFOLD_Generic_ubjson(h *rt.H) { foldUnfoldGeneric(h, ubjsonCodec) }
 func FOLDUNFOLD_Generic_json(h *rt.H)   { foldUnfoldGeneric(h, jsonCodec) }
+
+type selfRef struct {
+	V    int
+	Next *selfRef
+}
+
+// SELFREF (C11): a self-referential type must be handled or refused with an error,
+// not by a crash (unbounded recursion while the folder/unfolder is compiled).
+func SELFREF(h *rt.H) {
+	if h.Choose("unfold", 0, 1) == 1 {
+		h.Tag("selfref.unfold")
+		var to selfRef
+		_, err := gotype.NewUnfolder(&to)
+		h.ObserveBool("refused", err != nil)
+		return
+	}
+	h.Tag("selfref.fold")
+	var rec nullCounter
+	err := gotype.Fold(selfRef{V: 1, Next: &selfRef{V: 2}}, &rec)
+	h.Assert("fold-no-error", err == nil)
+}
+
+type nullCounter struct{ ev.Recorder }
